@@ -229,6 +229,7 @@ End AliasProofs.
 
 (* ---- the modes of the library components as modelled ---- *)
 Lemma nack_copy_mode p : lib_mode NackCopy p = MVal. Proof. reflexivity. Qed.
+Lemma nack_rtx_mode p : lib_mode NackRtx p = MVal. Proof. reflexivity. Qed.
 Lemma nack_nocopy_mode p : lib_mode NackNoCopy p = MRef. Proof. reflexivity. Qed.
 Lemma flexfec_mode p : lib_mode FlexFec p = MVal. Proof. reflexivity. Qed.
 Lemma leaky_bucket_mode p : lib_mode LeakyBucket p = MVal. Proof. reflexivity. Qed.
